@@ -206,6 +206,91 @@ def build_mode(case, parent):
     return mode, det, pipe, out
 
 
+def current_dir(out):
+    """the directory of the latest start, through the public property only (None before any start)"""
+    try:
+        return str(out.current_output_folder)
+    except Exception:  # noqa: BLE001  (RuntimeError: not defined yet)
+        return None
+
+
+def extract_reported(case, res):
+    """[run, bucket, fmt, name, a, b] for every entry of the result's /output node"""
+    import numpy as np
+
+    reported = []
+    node = res["output"]
+    nb = len(case["b"])
+    for bucket in node.children:
+        fn = node[bucket]["filename"]
+        fmt_dim = "extension" if "extension" in fn.dims else "data_format"
+        for fmt in sorted({str(x) for x in fn[fmt_dim].values}):
+            sel = fn.sel({fmt_dim: fmt})
+            if case["mode"] == "exposure":
+                for name in np.atleast_1d(sel.values).ravel().tolist():
+                    reported.append([0, bucket, fmt, str(name), case["a"][0], case["b"][0]])
+            else:
+                a_order = [float(x) for x in (fn["a"].values if case["mode"] == "parallel" else case["a"])]
+                b_order = [float(x) for x in (fn["b"].values if case["mode"] == "parallel" else case["b"])]
+                for av in case["a"]:
+                    for bv in case["b"]:
+                        v = sel.sel(a=float(av), b=float(bv)).values
+                        r = a_order.index(float(av)) * nb + b_order.index(float(bv))
+                        for name in np.atleast_1d(v).ravel().tolist():
+                            reported.append([r, bucket, fmt, str(name), av, bv])
+    return reported
+
+
+def run_plan(case, parent):
+    """ONE mode object started several times in one process (case["plan"]): each start may carry another save
+    list (set by attribute assignment or through `override_dct`); dask starts may all be made before any lazy
+    result is computed (`lazy`: start, start, …, compute in the given order).  Returns one record per start."""
+    import pyxel
+
+    plan = case["plan"]
+    mode, det, pipe, out = build_mode({**case, "save": plan["saves"][0]}, parent)
+    key = ("exposure" if case["mode"] == "exposure" else "observation") + ".outputs.save_data_to_file"
+    started = []  # (save, lazy result, directory)
+    records: list = [None] * len(plan["saves"])
+
+    def finish(k):
+        save, lazy, run_dir = started[k]
+        sub = {**case, "save": save}
+        try:
+            res = lazy.compute() if case["mode"] == "parallel" else lazy
+            records[k] = {"dir": os.path.basename(run_dir), "run_dir": run_dir, "reported": extract_reported(sub, res),
+                          "planted": [], "overwrite": None, "save": save}
+        except Exception as e:  # noqa: BLE001
+            kind = "NotImplementedError" if isinstance(e, NotImplementedError) else common.err_kind(e)
+            records[k] = {"error": kind, "msg": str(e)[:200], "dir": os.path.basename(run_dir), "save": save}
+
+    for k, save in enumerate(plan["saves"]):
+        save_cfg = [{f"detector.{b}.array": list(fmts)} for b, fmts in save]
+        kw = {}
+        if k > 0:
+            if plan["via"] == "override":
+                kw["override_dct"] = {key: save_cfg}
+            else:
+                mode.outputs.save_data_to_file = save_cfg
+        try:
+            with patched_clock():
+                lazy = pyxel.run_mode(mode=mode, detector=det, pipeline=pipe, **kw)
+        except Exception as e:  # noqa: BLE001
+            kind = "NotImplementedError" if isinstance(e, NotImplementedError) else common.err_kind(e)
+            d = current_dir(mode.outputs)
+            records[k] = {"error": kind, "msg": str(e)[:200], "dir": os.path.basename(d) if d else None, "save": save}
+            started.append(None)
+            continue
+        started.append((save, lazy, current_dir(mode.outputs)))
+        if not plan.get("lazy"):
+            finish(k)
+    if plan.get("lazy"):
+        for k in plan["order"]:
+            if started[k] is not None:
+                finish(k)
+    return records
+
+
 def one_run(case, parent):
     """start one simulation; returns {"dir", "reported": {(run, bucket, fmt): [names]}, …} or {"error"}"""
     import numpy as np
@@ -238,7 +323,8 @@ def one_run(case, parent):
                         elif after[name][1:] != st[1:]:
                             overwrite_why = overwrite_why or f"compute {n + 1} of the lazy result rewrote the existing file '{name}' (same bytes, new mtime / inode)"
     except Exception as e:  # noqa: BLE001
-        d = os.path.basename(str(out._current_output_folder)) if out._current_output_folder else None
+        d = current_dir(out)
+        d = os.path.basename(d) if d else None
         kind = "NotImplementedError" if isinstance(e, NotImplementedError) else common.err_kind(e)
         return {"error": kind, "msg": str(e)[:200], "dir": d}
     run_dir = str(out.current_output_folder)
@@ -478,6 +564,33 @@ def gen_runs(rng, n, mode):
     return cases
 
 
+def gen_plans(rng, n):
+    """one mode object started 2-3 times in one process"""
+    cases = []
+    for i in range(n):
+        mode = ["exposure", "parallel", "sequential", "parallel"][i % 4]
+        base = gen_runs(rng, 1, mode)[0]
+        for k in ("plant", "computes"):
+            base.pop(k, None)
+        nstart = rng.choice([2, 2, 3])
+        if rng.random() < 0.7:
+            saves = []
+            while len(saves) < nstart:
+                sv = gen_save(rng, mode, allow_both_jpegs=False)
+                if not saves or json.dumps(sv) != json.dumps(saves[-1]):
+                    saves.append(sv)
+        else:
+            saves = [base["save"]] * nstart
+        lazy = mode == "parallel" and rng.random() < 0.7
+        order = list(range(nstart))
+        if lazy and rng.random() < 0.5:
+            rng.shuffle(order)
+        base.update({"stream": f"run-{mode}", "id": f"plan{i}", "starts": nstart, "save": saves[0],
+                     "plan": {"saves": saves, "via": rng.choice(["attr", "override"]), "lazy": lazy, "order": order}})
+        cases.append(base)
+    return cases
+
+
 def directed_runs():
     """inputs named in the design: jpg + jpeg together in every mode; unsupported formats"""
     out = []
@@ -489,6 +602,17 @@ def directed_runs():
     out.append({"stream": "run-parallel", "id": "planted-collision", "mode": "parallel", "save": [["image", ["fits", "npy"]], ["pixel", ["npy"]]],
                 "a": [1, 2], "b": [3], "readouts": 1, "prefix": "", "starts": 1, "pre": [], "computes": 2,
                 "plant": ["detector_image_0.fits", "detector_pixel_1.npy"]})
+    two = [[["image", ["npy"]]], [["pixel", ["npy"]], ["image", ["fits"]]]]
+    for mode in ("exposure", "sequential", "parallel"):
+        for via in ("attr", "override"):
+            out.append({"stream": f"run-{mode}", "id": f"restart-other-save-list-{via}-{mode}", "mode": mode, "save": two[0],
+                        "a": [1] if mode == "exposure" else [1, 2], "b": [3], "readouts": 1, "prefix": "", "starts": 2, "pre": [],
+                        "plan": {"saves": two, "via": via, "lazy": False, "order": [0, 1]}})
+    same = [["image", ["fits", "npy"]], ["pixel", ["npy"]]]
+    for order in ([0, 1], [1, 0]):
+        out.append({"stream": "run-parallel", "id": f"lazy-double-start-{order[0]}", "mode": "parallel", "save": same,
+                    "a": [1, 2], "b": [3, 0], "readouts": 1, "prefix": "", "starts": 2, "pre": [],
+                    "plan": {"saves": [same, same], "via": "attr", "lazy": True, "order": order}})
     repeated = {"nonadjacent": [["image", ["fits"]], ["pixel", ["npy"]], ["image", ["npy"]]],
                 "adjacent": [["image", ["fits"]], ["image", ["npy"]], ["pixel", ["npy"]]],
                 "three-entries": [["photon", ["npy"]], ["image", ["npy"]], ["photon", ["fits"]], ["signal", ["fits", "npy"]], ["image", ["fits", "jpg"]]]}
@@ -549,6 +673,11 @@ def evaluate(case, tmp, pool=None):
         for impl, w in results:
             impls.append(impl)
             why = why or w
+    elif "plan" in case:
+        for impl in run_plan(case, parent):
+            impls.append(impl)
+            w = statement_run({**case, "save": impl["save"]}, impl)
+            why = why or (w and f"start {len(impls)} of the same mode object: {w}")
     else:
         for _ in range(case["starts"]):
             impl = one_run(case, parent)
@@ -574,6 +703,10 @@ def violation_key(case, why):
         return "C19:sequential:jpg-jpeg-same-file"
     if "overwritten" in why or "disappeared" in why or "overwrote" in why or "rewrote" in why:
         return f"C19:{case['mode']}:overwrite"
+    if "not in the run's directory" in why:
+        return f"C19:{case['mode']}:wrong-directory"
+    if "plan" in case and len({json.dumps(x) for x in case["plan"]["saves"]}) > 1 and ("no reported file" in why or "not requested" in why):
+        return f"C19:{case['mode']}:restart-keeps-old-save-list"
     buckets = [b for b, _ in case["save"]]
     if "no reported file" in why and len(set(buckets)) != len(buckets):
         return f"C19:{case['mode']}:repeated-bucket-unreported"
@@ -603,19 +736,27 @@ def body(ck: common.Check):
     cases += gen_runs(rng, 45 if quick else 500, "exposure")
     cases += gen_runs(rng, 18 if quick else 200, "sequential")
     cases += gen_runs(rng, 8 if quick else 80, "parallel")
+    cases += gen_plans(rng, 8 if quick else 80)
 
-    reqs = []
+    reqs, extra_slots = [], {}
     for c in cases:
         if c["stream"].startswith("dirs"):
             reqs.append(req_dirs(c, sequential=(c["stream"] == "dirs-sequential")))
         else:
             reqs.append(req_names(c))
-    answers = LeanDriver("C19").batch(reqs)
+    for n, c in enumerate(cases):  # one more model answer per further start of a plan (each start has its own save list)
+        if "plan" in c:
+            extra_slots[n] = []
+            for sv in c["plan"]["saves"]:
+                extra_slots[n].append(len(reqs))
+                reqs.append(req_names({**c, "save": sv}))
+    all_answers = LeanDriver("C19").batch(reqs)
+    answers = all_answers[: len(cases)]
 
     tmp = tempfile.mkdtemp(prefix="verif-c19-")
     pool = mp.get_context("fork").Pool(8)  # forked before any dask graph is computed in this process
     try:
-        for case, ans in zip(cases, answers):
+        for ncase, (case, ans) in enumerate(zip(cases, answers)):
             if "bad" in ans:
                 raise common.InfraError(f"driver rejected request: {ans}")
             s = case["stream"]
@@ -649,12 +790,17 @@ def body(ck: common.Check):
                         ck.count(f"format={f}")
                 if case["mode"] == "parallel":
                     ck.count(f"run-parallel:computes={case.get('computes', 1)}:planted={len(case.get('plant', []))}")
-                for impl_run in impl["runs"]:
+                if "plan" in case:
+                    pl = case["plan"]
+                    ck.count(f"{s}:same-mode-object:starts={len(pl['saves'])}:" + ("lazy-starts-before-compute" if pl.get("lazy") else "eager")
+                             + (":save-list-changed-by-" + pl["via"] if len({json.dumps(x) for x in pl["saves"]}) > 1 else ":same-save-list"))
+                for krun, impl_run in enumerate(impl["runs"]):
                     ck.count(f"{s}:outcome=" + (impl_run.get("error") or "ok"))
                     if s == "run-degenerate":
                         continue
-                    mine = canon_run(case, impl_run)
-                    model = canon_model(ans)
+                    sub = {**case, "save": impl_run["save"]} if "plan" in case else case
+                    mine = canon_run(sub, impl_run)
+                    model = canon_model(all_answers[extra_slots[ncase][krun]] if "plan" in case else ans)
                     if mine != model:
                         if isinstance(mine, str) and mine == "NotImplementedError":
                             continue  # formats refused by the mode are outside the model
